@@ -337,12 +337,13 @@ func valueFacts(info *types.Info, root ast.Node) *FactSpec {
 					from := subjKey(info, recv)
 					switch key {
 					case "cty.Value.Unmark", "cty.Value.unmarkForce":
-						if from != "" && from != lhs {
+						if from != "" {
+							// from == lhs (x, m := x.Unmark()): a self copy — only the mark state changes
 							out = append(out, Effect{CopyFrom: from, CopyTo: lhs, DropMarks: true})
 						}
 						out = append(out, Effect{Assert: &Fact{"unmarked", lhs}})
 					case "cty.Value.UnmarkDeep", "cty.Value.UnmarkDeepWithPaths":
-						if from != "" && from != lhs {
+						if from != "" {
 							out = append(out, Effect{CopyFrom: from, CopyTo: lhs, DropMarks: true})
 						}
 						out = append(out, Effect{Assert: &Fact{"unmarked", lhs}}, Effect{Assert: &Fact{"deepunmarked", lhs}})
